@@ -66,6 +66,10 @@ func stUnknowns(n stNode) []string {
 		switch x := n.(type) {
 		case stUnknown:
 			out = append(out, x.What)
+		case stHole:
+			if strings.Contains(x.Name, "?") {
+				out = append(out, "a value the evaluator cannot name: "+x.Name)
+			}
 		case stCat:
 			for _, y := range x {
 				rec(y)
@@ -258,6 +262,9 @@ type stFrame struct {
 }
 
 func stTypeName(t types.Type) string {
+	if p, ok := t.(*types.Pointer); ok {
+		t = p.Elem() // a pointer parameter denotes the same role as the value
+	}
 	return types.TypeString(t, func(p *types.Package) string { return p.Name() })
 }
 
@@ -395,10 +402,16 @@ func (fr *stFrame) sym(v ssa.Value) string {
 				return fr.sym(stBaseValue(a.X)) + "." + stFieldName(a.X.Type(), a.Field)
 			case *ssa.Global:
 				return short(a.Pkg.Pkg.Name() + "." + a.Name())
+			case *ssa.Parameter:
+				return fr.sym(a) // *p of a pointer parameter: same role as the value
 			}
 		}
 	case *ssa.Field:
 		return fr.sym(u.X) + "." + stFieldName(u.X.Type(), u.Field)
+	case *ssa.Alloc:
+		if s := stSingleStore(u); s != nil {
+			return fr.sym(s.Val) // &x of a spilled parameter: same role
+		}
 	case *ssa.MakeMap:
 		return stTypeName(u.Type()) + "{}"
 	case *ssa.MakeInterface:
